@@ -485,14 +485,23 @@ def run(ctx) -> None:
     # The table that maps a producer to its hash is filled for EVERY producer of the component: inside the loop nothing skips a
     # producer (no continue / break), and the store is guarded only by 'already in the table' and by the strong/fuzzy switch.  A
     # reference that the file loop leaves out (a directory) relies on this table.
-    fill_loops = [lp for lp in source.walk_own(fn) if isinstance(lp, ast.For) and any(
-        isinstance(a, ast.Assign) and any(isinstance(t, ast.Subscript) and isinstance(t.value, ast.Name) for t in a.targets)
-        and any(isinstance(x, ast.Attribute) and x.attr in ("memoization_hash", "memoization_hash_fuzzy") for x in ast.walk(a.value)) for a in ast.walk(lp))]
+    def reads_producer_hash(lp_: ast.AST) -> bool:
+        # the hash is read off the loop's own variable: the loop ranges over the producers
+        tv = {x.id for x in ast.walk(lp_.target) if isinstance(x, ast.Name)}
+        return any(isinstance(x, ast.Attribute) and x.attr in ("memoization_hash", "memoization_hash_fuzzy") and isinstance(x.value, ast.Name)
+                   and x.value.id in tv for x in ast.walk(lp_))
+    fill_loops = [lp for lp in source.walk_own(fn) if isinstance(lp, ast.For) and reads_producer_hash(lp) and any(
+        isinstance(a, ast.Assign) and any(isinstance(t, ast.Subscript) and isinstance(t.value, ast.Name) for t in a.targets) for a in ast.walk(lp))]
     ctx.floor("C16.R15-every-producer-is-hashed", len(fill_loops), 1, "loops that fill the producer -> hash table")
     for lp in fill_loops:
-        table = next(t.value.id for a in ast.walk(lp) if isinstance(a, ast.Assign) for t in a.targets if isinstance(t, ast.Subscript) and isinstance(t.value, ast.Name)
-                     and any(isinstance(x, ast.Attribute) and x.attr in ("memoization_hash", "memoization_hash_fuzzy") for x in ast.walk(a.value)))
-        skips = [x for x in ast.walk(lp) if isinstance(x, (ast.Continue, ast.Break))]
+        table = next(t.value.id for a in ast.walk(lp) if isinstance(a, ast.Assign) for t in a.targets if isinstance(t, ast.Subscript) and isinstance(t.value, ast.Name))
+
+        def only_already_listed(x: ast.AST) -> bool:
+            """a continue that skips a producer which already HAS its entry ('if id in table: continue')"""
+            g = next((anc for anc in source.ancestors(x) if isinstance(anc, ast.If)), None)
+            return isinstance(x, ast.Continue) and g is not None and isinstance(g.test, ast.Compare) and isinstance(g.test.ops[0], ast.In) \
+                and table in set(source.names_in(g.test)) and any(x is y for st_ in g.body for y in ast.walk(st_))
+        skips = [x for x in ast.walk(lp) if isinstance(x, (ast.Continue, ast.Break)) and not only_already_listed(x)]
         bad_guards = []
         for a in ast.walk(lp):
             if isinstance(a, ast.Assign) and any(isinstance(t, ast.Subscript) and isinstance(t.value, ast.Name) and t.value.id == table for t in a.targets):
